@@ -16,7 +16,7 @@ RULE = ("interval sets: every ordered selection of <=3 (quick) / <=4 (thorough) 
         "(valid, degenerate and inverted), in both insertion orders, plus seeded sets of 3..6 intervals on a "
         "half-step grid (touching, nested, shuffled). Oracle: construction succeeds iff all start<=end and no two "
         "closed intervals share a point, else KeyError and only KeyError; for every grid point, midpoint and outside "
-        "point lookup == linear scan, `in` agrees, len, ascending iteration. distinct_nontrivial = distinct interval "
+        "point lookup == linear scan, `in` agrees (the same map object is probed ascending, descending and in 3 shuffled orders with hits and misses interleaved), len, ascending iteration. distinct_nontrivial = distinct interval "
         "sets with >=2 intervals.")
 ASSUMPTIONS = ["keys and interval ends are ints / binary-exact half steps (no float rounding in the reference)"]
 SHARD_TIMEOUT = {"quick": 600, "thorough": 3600}
@@ -55,15 +55,34 @@ def check_case(intervals, probes):
     want_it = [(iv, mapping[iv]) for iv in sorted(intervals)]
     if it != ("ok", want_it):
         return "iteration", f"iteration of {mapping} -> {it}, expected ascending {want_it}"
-    for k in probes:
-        hits = [mapping[(s, e)] for s, e in intervals if s <= k <= e]
-        want = ("ok", hits[0]) if hits else ("exc", "KeyError")
-        g = outcome(lambda: m[k])
-        if g != want:
-            return "lookup", f"ImmutIntervalMap({mapping})[{k}] -> {g}, linear scan gives {want}"
-        g = outcome(lambda: k in m)
-        if g != ("ok", bool(hits)):
-            return "membership", f"{k} in ImmutIntervalMap({mapping}) -> {g}, expected {bool(hits)}"
+    # the same long-lived map object is probed ascending, descending and in seeded shuffled orders (hits and misses
+    # interleaved): an "immutable" map must answer independently of its lookup history
+    import random
+    rng = random.Random(len(intervals) * 7919 + len(probes))
+    seqs = [list(probes), list(reversed(probes))]
+    for _ in range(3):
+        sp = list(probes) * 2
+        rng.shuffle(sp)
+        seqs.append(sp)
+    history = []
+    for sp in seqs:
+        for k in sp:
+            hits = [mapping[(s, e)] for s, e in intervals if s <= k <= e]
+            want = ("ok", hits[0]) if hits else ("exc", "KeyError")
+            use_in = rng.random() < 0.3
+            history.append(k)
+            if not use_in:
+                g = outcome(lambda: m[k])
+                if g != want:
+                    return "lookup", (f"ImmutIntervalMap({mapping})[{k}] -> {g}, linear scan gives {want} (previous "
+                                      f"lookups on this object: {history[-6:-1]})")
+            else:
+                g = outcome(lambda: k in m)
+                if g != ("ok", bool(hits)):
+                    return "membership", (f"{k} in ImmutIntervalMap({mapping}) -> {g}, expected {bool(hits)} (previous "
+                                          f"lookups: {history[-6:-1]})")
+    if len(m) != len(intervals) or outcome(lambda: list(m)) != ("ok", want_it):
+        return "iteration", "len/iteration changed after lookups"
     return None
 
 
@@ -113,7 +132,7 @@ def run_shard(spec):
         if i % spec["nshards"] != spec["shard"]:
             continue
         res.count("cases")
-        res.evaluations += 1 + 2 * len(probes)
+        res.evaluations += (1 + 8 * len(probes)) if valid(ivs) else 1
         res.count("valid_sets" if valid(ivs) else "invalid_sets")
         if len(ivs) >= 2:
             res.seen(tuple(ivs))
